@@ -20,3 +20,4 @@ from contracts import ranges_dinit as RD
 UNITS += RD.units_decimal_range_init()
 from contracts import tools as TL
 UNITS += [TL.unit_tokenize_without_space(), TL.unit_generated_tokens(), TL.unit_token_text()]
+UNITS += [R.unit_code_for_string_token()]
